@@ -28,7 +28,7 @@ Inductive err :=
 Inductive reply :=
 | RAdded (n k : N)     (* data: namespace and name *)
 | RStatus (c : N)      (* data: status; 1 cleared 2 replaced 3 removed 4 deployed *)
-| RValue (k : N)       (* data: the value computed by model k *)
+| RValue (k d : N)     (* data: the value computed by the evaluator deployed under the name k, built from the document d *)
 | RErr (e : err).      (* errors member *)
 
 Definition is_err (r : reply) : bool := match r with RErr _ => true | _ => false end.
@@ -56,12 +56,12 @@ Definition serve (s : ws) (q : request) : ws * reply :=
   | QClear => (init, RStatus 1)
   | QDeploy => (deploy s, RStatus 4)
   | QEvaluate k false => (s, RErr EInput)
-  | QEvaluate k true => if mem k (evs s) then (s, RValue k) else (s, RErr ENotDeployed)
+  | QEvaluate k true => match lookup k (evs s) with Some d => (s, RValue k d) | None => (s, RErr ENotDeployed) end
   | QTck None _ _ => (s, RErr (EMissing 4))
   | QTck (Some _) false _ => (s, RErr (EMissing 5))
   | QTck (Some _) true None => (s, RErr (EMissing 6))
   | QTck (Some _) true (Some false) => (s, RErr EInput)
-  | QTck (Some k) true (Some true) => if mem k (evs s) then (s, RValue k) else (s, RErr ENotDeployed)
+  | QTck (Some k) true (Some true) => match lookup k (evs s) with Some d => (s, RValue k d) | None => (s, RErr ENotDeployed) end
   | QRejected => (s, RErr EBadRequest)
   | QNoRoute => (s, RErr ENoRoute)
   end.
@@ -78,7 +78,7 @@ Definition replace_fixed (s : ws) (m : mdl) : ws * bool := add (remove s (ns m) 
 (* the handler at the pinned commit called Workspace::add *)
 Definition replace_orig (s : ws) (m : mdl) : ws * bool := add s m.
 
-(* ---------------- Spec: the request sequence read as a sequence of workspace operations ---------------- *)
+(* ---------------- the request sequence read as a sequence of workspace operations ---------------- *)
 Definition op_of (q : request) : option op :=
   match q with
   | QAdd (CModel m) => Some (Add m)
@@ -118,12 +118,15 @@ Definition report (o : op) (x : out) : reply :=
   | Remove _ _, _ => RStatus 3
   | Clear, _ => RStatus 1
   | Deploy, _ => RStatus 4
-  | Eval k, OEval true => RValue k
-  | Eval _, OEval false => RErr ENotDeployed
+  | Eval k, OEval (Some d) => RValue k d
+  | Eval _, OEval None => RErr ENotDeployed
   | _, _ => RErr EBadRequest
   end.
 
-Definition spec_serve (s : ws) (q : request) : ws * reply :=
+(* serve, read as "decode the request into at most one workspace operation, run it on the ImplModel, report the outcome":
+   the same handler table in three pieces (op_of, refusal, report).  It is a lemma about serve, not its specification;
+   the specification is the relation spec_serve of C18/Spec.v over the abstract workspace. *)
+Definition serve_by_op (s : ws) (q : request) : ws * reply :=
   match op_of q with
   | Some o => let (s', x) := step remove s o in (s', report o x)
   | None => (s, RErr (refusal q))
